@@ -628,12 +628,13 @@ impl<'a, 'b> GeneratorState<'a> {
                         }
                         self.sasm(TYA)?;
                         self.acc_in_use = true;
+                        // The operands may have been swapped: go on with the swapped ones
                         return self.generate_condition_ex(
                             &ExprType::A(false),
-                            op,
-                            r,
+                            &operator,
+                            right,
                             pos,
-                            negate,
+                            false,
                             label,
                         );
                     }
@@ -681,12 +682,13 @@ impl<'a, 'b> GeneratorState<'a> {
                         }
                         self.sasm(TXA)?;
                         self.acc_in_use = true;
+                        // The operands may have been swapped: go on with the swapped ones
                         return self.generate_condition_ex(
                             &ExprType::A(false),
-                            op,
-                            r,
+                            &operator,
+                            right,
                             pos,
-                            negate,
+                            false,
                             label,
                         );
                     }
